@@ -188,6 +188,7 @@ def run(ctx):
     from harness import floatstreams
     floatstreams.pelt_float_stream(ctx, ctx.n(24, 160))
     floatstreams.pelt_l2_end_to_end_stream(ctx, ctx.n(18, 120))
+    floatstreams.pelt_l2_columns_end_to_end_stream(ctx, ctx.n(12, 80))
     # the DEFAULT configuration on series of realistic length and width, decided by the property-level twin of the model
     floatstreams.pelt_default_scale_stream(ctx, ctx.n(2, 10))
 
